@@ -182,3 +182,44 @@ def overflow_term(rng, case, al):
     if k == 2:
         s = case.push("loop %d %d %d" % (x, 1, big)); return case.push("concat %d %d" % (x, s))
     s = case.push("loop %d 2 %d" % (x, big)); return case.push("loop %d 3 %d" % (s, big))
+
+
+YIELD_OPS = ("none", "eps", "all", "allchar", "splus", "char", "range", "charset", "smtrange", "str", "concat",
+             "concatl", "union", "unionl", "inter", "interl", "comp", "diff", "diffl", "star", "plus", "opt",
+             "pow", "loop", "loopinf", "deriv", "sderiv", "classder", "setder", "ctorstr")
+
+
+def intensify(case, rng, n_variants=6):
+    """failing-input search around a case on which model and implementation disagree: keep its
+    term-building statements and observe every value it builds much more densely (membership of all
+    words <= 4 over several critical alphabets, nullable, emptiness, witness, first characters)."""
+    prefix = "W " if case.startswith("W ") else ""
+    body = case[2:] if prefix else case
+    stmts = [s for s in body.split(" ; ") if s.split() and s.split()[0] in YIELD_OPS]
+    chars = set()
+    for s in stmts:
+        t = s.split()
+        if t[0] in ("char", "range", "charset", "deriv", "setder"):
+            for x in t[1:]:
+                if x.isdigit() and int(x) <= MAXC:
+                    chars.add(int(x))
+        if t[0] in ("str", "smtrange", "sderiv"):
+            for x in t[2:]:
+                if x.isdigit() and int(x) <= MAXC:
+                    chars.add(int(x))
+    crit = sorted(set(list(chars) + [c + 1 for c in chars if c < MAXC] + [c - 1 for c in chars if c > 0]))[:12] or [97, 98]
+    out = []
+    n = len(stmts)
+    for v in range(n_variants):
+        alpha = rng.sample(crit, min(3, len(crit)))
+        obs = []
+        for i in range(n):
+            obs.append("nullable %d" % i)
+            obs.append("memall %d 4 %s" % (i, word(alpha)))
+            if not prefix:
+                obs.append("empty %d" % i)
+                obs.append("getstr %d" % i)
+                for c in alpha[:2]:
+                    obs.append("startc %d %d" % (i, c))
+        out.append(prefix + " ; ".join(stmts + obs))
+    return out
